@@ -1,6 +1,7 @@
 import Proofs.Small
 import Proofs.ForPrefixes
 import Proofs.MarksOps
+import Proofs.HeadlinesAll
 /-! C13 — hierarchy queries. Proved so far: the answers are duplicate-free sorted sets, never contain
     the queried webentity or "no webentity", and every member is the id of a cell met on the parent chain
     (resp. in the pruned DFS) of one of the given prefixes; an unknown prefix is refused with the
@@ -103,5 +104,24 @@ theorem C13_unknown_prefix (s : State) (w : Nat) (ps : List Bytes) (e : Err)
         (fun w' => w' ≠ 0 && w' ≠ w)) with
     | error e' => rw [hf] at h; cases h; exact forPrefixes_err s ps _ _ hf
     | ok xs => rw [hf] at h; cases h
+
+section EveryHistory
+open Traph State Pag Layout
+/-! ### every history (Proofs/Discipline, SinceClear, ReachableAll, HeadlinesAll) -/
+
+/-- EVERY HISTORY, `clear` and `reopen` included, no request assumed away: the only hypotheses are that byte strings cut into at least one stem (`OpWf`), rule anchors are whole LRUs (`rulesCanonical`, `Canon`) and the caller re-supplies on `reopen` the rules the index carries, as the API requires (`Disciplined`); `clear` acts as a reset (`sinceClear`).  -/
+theorem C13_all {s : State} (hs : Reachable s) :
+    ∃ t, Shape s t ∧ MarkOk s t ∧
+      (∀ a ∈ t.addrs, ∀ (lru : Bytes) (w : Nat),
+        ∃ l c r, Rep s (.node a l c r) ∧ (∀ x ∈ c.addrs, x ∈ t.addrs) ∧
+          ∀ x, (x ≠ 0 ∧ x ≠ w ∧ ∃ b ∈ a :: c.addrs, (s.cell b).we = x) ↔
+               (x ≠ 0 ∧ x ≠ w ∧ ∃ bl ∈ s.dfsIter (some (a, lru)) true, (s.cell bl.1).we = x)) ∧
+      (∀ (w : Nat) (ps : List Bytes), (∀ p ∈ ps, lruIter p ≠ []) → ∀ l : List Nat,
+        s.childWebentities w ps = .ok l →
+        ∀ x, x ∈ l ↔ x ≠ 0 ∧ x ≠ w ∧ ∃ p ∈ ps, ∃ q b, (q, b) ∈ t.entries s [] ∧
+          lruIter p <+: q ∧ (s.cell b).we = x) :=
+  Traph.C13_all hs
+
+end EveryHistory
 
 end Traph.Props
